@@ -5,9 +5,16 @@ Nothing here decides a listed property, so nothing here ever prints a VIOLATION 
 "EXTRA-MISMATCH <name> <replay file>" and the command exits 3 (0 when everything conformed, 2 on tool errors).
 Results are written to /verif/evidence-extra/<name>.json.
 
+  coherence  Thm_Machine.tla: Machine.tla's interrupt check is Irq!Dispatch on its projection, catch-up is additive at
+           machine level (timer, LCD, DMA, joypad latch, IF and the DMA's bus writes together), a halted CPU that nothing
+           wakes just lets time pass, a block step is its instruction steps.  (Specification only: no code involved.)
   raster   Val_PpuRaster.tla: LCD registers, video RAM and OAM rewritten during horizontal / vertical blanking
            take effect from the next line on (split screens, per-line scroll, sprite multiplexing); line y of the
            presented frame is line y of Ppu.tla's composition of the state in force when line y began.
+  raster-machine  the same law end to end: guest programs whose HBlank (STAT mode 0) handler rewrites scroll / palette /
+           window registers per line and whose VBlank handler moves an object and rewrites a map entry, run on the
+           whole machine in both builds; the register / VRAM / OAM timeline is reconstructed from the recorded bus
+           writes and LCD positions, and every frame the PPU presented is validated by Val_PpuRaster.
 """
 import json, os, random, shutil, sys, time
 import vlib
@@ -54,7 +61,67 @@ def raster(tier):
             "mismatches": bad}
 
 
-EXTRAS = {"raster": raster}
+def raster_machine(tier):
+    """Guest programs with HBlank / VBlank handlers on the whole machine, both builds; frames validated by Val_PpuRaster."""
+    import raster as rastergen, gbprog
+    thorough = tier == "thorough"
+    rng = random.Random(vlib.seed() + 151)
+    scs = rastergen.raster_machine_programs(24 if thorough else 4, rng)
+    bad, nframes, npatches = [], 0, 0
+    files = []
+    for jit in (False, True):
+        tag = "jit" if jit else "interp"
+        sp = os.path.join(rundir(), "rm_%s.ndjson" % tag)
+        tp = os.path.join(rundir(), "rm_%s_trace.ndjson" % tag)
+        gbprog.write_scenarios(sp, scs)
+        gbv(["machine", "--scenarios", sp, "--out", tp], jit=jit)
+        per, cur = {}, None
+        for l in open(tp):
+            r = json.loads(l)
+            if r["ev"] == "init":
+                cur = r["id"]; per[cur] = []
+            if r["ev"] in ("panic", "crash"):
+                bad.append({"verdict": "the run did not complete (%s build)" % tag, "record": r})
+                continue
+            per[cur].append(r)
+        recs = []
+        for sc in scs:
+            try:
+                recs += rastergen.machine_timeline(sc, per.get(sc["id"], []))
+            except ValueError as e:
+                raise ToolError("raster program %s wrote outside blanking: %s" % (sc["id"], e))
+        if len(recs) < len(scs):
+            raise ToolError("vacuity: fewer frames than programs")
+        nframes += len(recs); npatches += sum(len(r["patches"]) for r in recs)
+        shards = 8 if thorough else 4
+        for i in range(shards):
+            fp = os.path.join(rundir(), "rm_%s_frames_%d.ndjson" % (tag, i))
+            vlib.write_ndjson(fp, recs[i::shards])
+            files.append(fp)
+    rs = vlib.tlc_parallel([dict(module="Val_PpuRaster", env={"TRACE": f}, check=False, timeout=5400, xmx="3g") for f in files], maxpar=8)
+    for f, r in zip(files, rs):
+        if r.printed("BATCH_OK"):
+            continue
+        rej = r.printed("BATCH_REJECTED")
+        if not rej:
+            raise ToolError("Val_PpuRaster gave no verdict:\n" + "\n".join(r.text.splitlines()[-20:]))
+        keep = os.path.join(vlib.REPLAY, "extra-raster"); os.makedirs(keep, exist_ok=True)
+        kept = os.path.join(keep, os.path.basename(f)); shutil.copy(f, kept)
+        bad.append({"verdict": rej[0][:1500], "frames": kept})
+    return {"name": "raster-machine", "module": "Val_PpuRaster", "programs": len(scs), "builds": 2, "frames": nframes, "patches": npatches,
+            "pixels_compared": nframes * 23040, "mismatches": bad}
+
+
+def coherence(tier):
+    """Thm_Machine.tla: the whole-machine specification agrees with the device modules it instantiates."""
+    r = vlib.tlc("Thm_Machine", env={"DEEP": "1"} if tier == "thorough" else {}, check=False, timeout=5400, xmx="8g")
+    ok = "No error has been found" in r.text
+    bad = [] if ok else [{"verdict": "\n".join(l for l in r.text.splitlines() if "ssumption" in l or "Error" in l)[:1500]}]
+    return {"name": "coherence", "module": "Thm_Machine", "theorems": ["DispatchRefinesIrq", "CatchUpAdditive", "HaltedTime", "BlockIsInstructions"],
+            "wall_tlc_s": round(r.wall, 1), "mismatches": bad}
+
+
+EXTRAS = {"raster": raster, "raster-machine": raster_machine, "coherence": coherence}
 
 
 def main(argv):
